@@ -31,6 +31,8 @@ type typeDictionary struct {
 	dict map[Node]map[string]*Typedef
 	// identities contains a dictionary of resolved identities.
 	identities identityDictionary
+	// pass counts the calls of resolveTypedefs, i.e. the Process runs.
+	pass int
 }
 
 func newTypeDictionary() *typeDictionary {
@@ -112,6 +114,7 @@ func (d *typeDictionary) addTypedefs(t Typedefer) {
 // modules and submodules read in.
 func (d *typeDictionary) resolveTypedefs() []error {
 	var errs []error
+	d.pass++
 
 	// When resolve typedefs, we may need to look up other typedefs.
 	// We gather all typedefs into a slice so we don't deadlock on
@@ -180,10 +183,33 @@ func (t *Type) resolve(d *typeDictionary) []error {
 	}
 	// A type whose resolution failed is resolved again, so that the next
 	// Process reports the same problems again, or succeeds once what was
-	// missing has been loaded.
-	errs := t.resolve1(d)
+	// missing has been loaded.  Within one pass the outcome is remembered:
+	// every user of a broken typedef would otherwise walk the whole chain
+	// below it again.
+	if t.resolveFailed && t.resolvePass == d.pass {
+		return t.resolveErrs
+	}
+	errs := uniqueErrors(t.resolve1(d))
 	t.resolveFailed = len(errs) != 0
+	t.resolveErrs, t.resolvePass = errs, d.pass
 	return errs
+}
+
+// uniqueErrors returns errs without repeated occurrences of the same error
+// (several members of a union may be built on the same broken typedef).
+func uniqueErrors(errs []error) []error {
+	if len(errs) < 2 {
+		return errs
+	}
+	seen := map[error]bool{}
+	var out []error
+	for _, err := range errs {
+		if !seen[err] {
+			seen[err] = true
+			out = append(out, err)
+		}
+	}
+	return out
 }
 
 // resolve1 does the work of resolve.
